@@ -11,6 +11,7 @@ package workpool
 import (
 	"bufio"
 	"bytes"
+	"encoding/json"
 	"fmt"
 	"io"
 	"os"
@@ -155,7 +156,13 @@ func runBatch(c *child, o *Options, batch [][]byte) (got int, reason string) {
 			return got, "crash"
 		}
 		timer.Reset(limit)
-		o.OnResult(batch[got], bytes.TrimRight(line, "\n"))
+		if res := bytes.TrimSpace(line); len(res) == 0 || !json.Valid(res) {
+			// a handler that returns nothing has lost its case (a panic recovered without producing a result):
+			// never dropped silently - reported like a crash of that case
+			o.OnCrash(Crash{Case: batch[got], Stderr: string(res), Reason: "no-result (the handler produced no result for this case: a panic it swallowed)"})
+		} else {
+			o.OnResult(batch[got], bytes.TrimRight(line, "\n"))
+		}
 		got++
 	}
 	timer.Stop()
